@@ -161,6 +161,13 @@ struct Machine {
 			if (it.index() < tot) { auto e = *it; o << " deref=" << Enc<I>::id(I(e.input)) << ":" << e.label; } else o << " deref=end";
 			if (it.index() + 1 < tot) { auto j = it; ++j; --j; auto e = *j; o << " rt=" << Enc<I>::id(I(e.input)); } else o << " rt=-";
 			if (it.index() > 0 && it.index() < tot) { auto j = it; --j; auto e = *j; o << " prev=" << Enc<I>::id(I(e.input)); } else o << " prev=-";
+			// a walk with ONE iterator object that changes direction: -- -- ++ ++ ++ -- (steps that would leave [0,tot) are skipped)
+			o << " walk=";
+			{ auto w = it; std::size_t wi = it.index(); bool first = true; const int ops[6] = {-1, -1, +1, +1, +1, -1};
+			  if (wi < tot) for (int k = 0; k < 6; ++k) {
+				if (ops[k] < 0) { if (wi == 0) continue; --w; --wi; } else { if (wi + 1 >= tot) continue; ++w; ++wi; }
+				auto e = *w; o << (first ? "" : ",") << w.index() << "/" << Enc<I>::id(I(e.input)); first = false; }
+			  if (first) o << "-"; }
 		}
 		else if (cmd == "V") { int r = a[0], q = a[1]; std::vector<std::size_t> s(a.begin() + 3, a.end()); DataView<DS> v(R[r]); DataView<DS> sub = subset(v, s); DS t = toDataset(sub, a[2]); R[q] = t; dump(o, q); }
 		else if (cmd == "W") { // W r q bs n1 idx1.. idx2.. : subset of a subset of the view, then toDataset; index() of every entry
